@@ -580,6 +580,54 @@ def check(facts, rep, tier, cfg):
                 rep.ok("C01.R14", "fresh-client-id/%s" % b.path.split("::{")[0], w14, "every received datagram is registered before its frame is built")
         rep.floor("C01.R14", "client UDP handlers that receive and forward datagrams", k14, 2)
 
+    # ---- R16 a datagram of a flow the server has no forwarder for always starts one
+    if has_server:
+        rep.rule("C01.R16", "server: when the datagram's flow id is not in the routing table, a forwarder is started for it on every path (the table "
+                            "insert is passed before the loop is re-entered) - no cap, filter or early `continue` discards the datagrams of a new flow")
+        k16 = 0
+        for b in crate.bodies:
+            if "/src/server/websocket.rs" not in b.file:
+                continue
+            tr = None
+            for gb in range(len(b.blocks)):
+                if b.term(gb)["k"] != "SwitchInt":
+                    continue
+                tr = tr or Tracer(facts, b)
+                g = guard_at(facts, b, tr, gb)
+                if g is None:
+                    continue
+                look = [x for x in walk(g.pred) if x.kind == "call" and x[6] in ("get", "get_mut", "contains_key", "entry") and "HashMap" in x[1] + x[2]
+                        and "Datagram" in x[2]]
+                if not look:
+                    continue
+                pz = strip(g.pred)
+                none_edges = [succ for succ, v in g.edges if (g.kind == "discr" and v in ("None", "Vacant")) or
+                              (g.kind == "bool" and ((pz.kind == "call" and pz[6] in ("is_none",) and v is True) or
+                                                     (pz.kind == "call" and pz[6] in ("is_some", "contains_key") and v is False)))]
+                if not none_edges:
+                    continue
+                k16 += 1
+                rep.analysed(b)
+                where = "%s (%s)" % (loc_str(b.term(gb)["loc"]), b.path)
+                ins = [bi for bi, t in b.calls() if callee(t) and callee(t)["name"] == "insert" and "Datagram" in callee(t)["path"]
+                       and ("HashMap" in callee(t)["path"] or "VacantEntry" in callee(t)["path"])]
+                pred = b.pred
+                heads = set(h for h in range(len(b.blocks)) if b.dominates(h, gb) and h in b.reachable_from(gb) and any(b.dominates(h, p_) for p_ in pred[h]))
+                rets = set(r for r in range(len(b.blocks)) if b.term(r)["k"] == "Return")
+                leak = None
+                for ne in none_edges:
+                    reach = b.reachable_from(ne, cut=set(ins))
+                    esc = [x for x in reach if x in heads or x in rets]
+                    if esc or not ins:
+                        leak = esc[0] if esc else ne
+                if leak is not None:
+                    rep.bad("C01.R16", "new-flow-starts-forwarder", where,
+                            "a datagram whose flow id is not in the routing table can be dropped without a forwarder being started (the loop is "
+                            "re-entered at %s without passing the table insert): datagrams of a new local client never reach their target" % loc_str(b.term(leak)["loc"]))
+                else:
+                    rep.ok("C01.R16", "new-flow-starts-forwarder", where, "unknown flow id -> insert + spawn on every path")
+        rep.floor("C01.R16", "routing-table lookups for received datagrams", k16, 1)
+
     # ---- R10 a per-flow forwarder that has exited is forgotten, so the next datagram of that flow starts a new one
     if has_server:
         rep.rule("C01.R10", "server: when the hand-off to a flow's forwarder fails with Closed (forwarder pruned), the flow's entry is removed "
